@@ -65,7 +65,7 @@ def all_jobs():
             if lit:
                 src = 'blocc/parse_expression.cpp' if kind == 'ctor' else ('blocc/expression_integer.cpp' if cls == 'IntegerExpression' else 'blocc/expression_numeric.cpp')
             J.append(dict(id='const_%s_%s' % (cls, kind), src=src, contract='const_%s.c' % cls, enforce=mg, roots=[mg], replace=rep,
-                          cut=rep + [RTE_CTOR, RTE_CTOR_S], props=['C01', 'C02', 'C04', 'C05'], pretty='bloc::%s::%s' % (cls, kind), canaries=['normal']))
+                          cut=rep + [RTE_CTOR, RTE_CTOR_S], props=(['C01', 'C04', 'C05'] + (['C02'] if (kind == 'value' or lit) else [])), pretty='bloc::%s::%s' % (cls, kind), canaries=['normal']))
     mg = '_ZNK4bloc12FORStatement4doitERNS_7ContextE'
     CTX_STUBS = ['_ZN4bloc7Context10topControlEv', '_ZN4bloc7Context14topControlDataEv', '_ZN4bloc7Context12stackControlEPKNS_10ControllerEPv',
                  '_ZN4bloc7Context14unstackControlEv', '_ZN4bloc7Context9getSymbolEj', '_ZN4bloc7Context13storeVariableEjONS_5ValueE',
